@@ -325,6 +325,16 @@ def stateful (s : Store) (w : List String) : Option (Store × String) :=
     match s.lookupFailure H now k with
     | some _ => let _ := opt; some (s, "hit upstream=0 rcode=2")
     | none => some (s, "miss upstream=1 rcode=2")
+  | "cohort" :: now :: _n :: n :: t :: c :: cd :: [sc] => do
+    -- n identical requests: one leader asks upstream and records the SERVFAIL, the followers are
+    -- served from that state; an already active failure serves everybody
+    let k ← parseQ [n, t, c, cd, sc]; let now ← parseInt now
+    if s.disabled then some (s, s!"disabled len={s.tab.length}") else
+    match s.lookupFailure H now k with
+    | some e => some (s, s!"upstream=0 len={s.tab.length} {fmtHit e}")
+    | none =>
+      let s' := s.writeBackFailure H now ⟨false, false, false, .none⟩ k 0
+      some (s', s!"upstream=1 {lenLookup s' now k}")
   | "probe" :: now :: _n :: rest => do
     let now ← parseInt now
     let rec keys : Nat → List String → Option (List QKey)
